@@ -497,63 +497,73 @@ mod verif_c03_packet {
         kani::assume(dcid_len <= 20); // precondition of be_one_rtt_header; the only caller passes 8
         let mut dg = BytesMut::from(&b[..]);
         dg.truncate(n);
-        let mut rd = PacketReader::new(dg, dcid_len);
-        match rd.next() {
-            None => assert!(n == 0, "C03.packet.reader.none_iff_datagram_exhausted"),
-            Some(r) => {
-                assert!(n > 0, "C03.packet.reader.none_iff_datagram_exhausted");
-                let left = rd.raw_bytes.len();
-                // progress: the reader can be polled at most n times ("never loops without consuming")
-                assert!(left < n, "C03.packet.reader.every_step_consumes_input");
-                match r {
-                    Ok(Packet::Data(p)) => {
-                        // == precondition of remove_protection_of_{long,short}_packet (decrypt harness)
-                        assert!(p.offset >= 1, "C03.packet.be_packet.data.offset_ge_1");
-                        assert!(p.offset + 20 <= p.bytes.len(), "C03.packet.be_packet.data.offset_plus_20_inside_packet");
-                        assert!(p.bytes.len() + left == n, "C03.packet.be_packet.data.splits_datagram_without_loss");
-                        let i: usize = kani::any();
-                        assert!(i >= p.bytes.len() || p.bytes[i] == b[i], "C03.packet.be_packet.data.packet_bytes_are_datagram_prefix");
-                        let j: usize = kani::any();
-                        assert!(j >= left || rd.raw_bytes[j] == b[p.bytes.len() + j], "C03.packet.be_packet.data.rest_is_datagram_suffix");
-                        if let DataHeader::Short(_) = p.header {
-                            assert!(left == 0 && p.offset == 1 + dcid_len, "C03.packet.be_packet.short.takes_rest_of_datagram");
-                        }
-                        kani::cover!(matches!(p.header, DataHeader::Short(_)), "C03.packet.be_packet.reach_short");
-                        kani::cover!(matches!(p.header, DataHeader::Long(long::DataHeader::Initial(_))) && left > 0, "C03.packet.be_packet.reach_initial_coalesced");
-                        kani::cover!(matches!(p.header, DataHeader::Long(long::DataHeader::Handshake(_))), "C03.packet.be_packet.reach_handshake");
-                        kani::cover!(matches!(p.header, DataHeader::Long(long::DataHeader::ZeroRtt(_))), "C03.packet.be_packet.reach_zero_rtt");
-                    }
-                    Ok(Packet::VN(_)) | Ok(Packet::Retry(_)) => assert!(left == 0, "C03.packet.be_packet.vn_retry_consume_datagram"),
-                    Err(e) => {
-                        // "a malformed datagram is simply dropped"
-                        assert!(left == 0, "C03.packet.reader.error_drops_rest_of_datagram");
-                        assert!(
-                            matches!(e, Error::IncompleteType(_) | Error::IncompleteHeader(..) | Error::UnderSampling(..) | Error::InvalidFixedBit | Error::UnsupportedVersion(_)),
-                            "C03.packet.be_packet.err_is_a_drop_reason"
-                        );
-                        kani::cover!(matches!(e, Error::UnderSampling(_, 19)), "C03.packet.be_packet.reach_under_sampling_19");
-                        kani::cover!(matches!(e, Error::IncompleteHeader(..)), "C03.packet.be_packet.reach_incomplete_header");
-                    }
+        let r = be_packet(&mut dg, dcid_len);
+        let left = dg.len();
+        match r {
+            Ok(Packet::Data(p)) => {
+                // == precondition of remove_protection_of_{long,short}_packet (decrypt harness)
+                assert!(p.offset >= 1, "C03.packet.be_packet.data.offset_ge_1");
+                assert!(p.offset + 20 <= p.bytes.len(), "C03.packet.be_packet.data.offset_plus_20_inside_packet");
+                assert!(p.bytes.len() + left == n, "C03.packet.be_packet.data.splits_datagram_without_loss");
+                // progress: PacketReader::next can return at most n packets ("never loops without consuming")
+                assert!(left < n, "C03.packet.be_packet.ok_consumes_input");
+                let i: usize = kani::any();
+                assert!(i >= p.bytes.len() || p.bytes[i] == b[i], "C03.packet.be_packet.data.packet_bytes_are_datagram_prefix");
+                let j: usize = kani::any();
+                assert!(j >= left || dg[j] == b[p.bytes.len() + j], "C03.packet.be_packet.data.rest_is_datagram_suffix");
+                if let DataHeader::Short(_) = p.header {
+                    assert!(left == 0 && p.offset == 1 + dcid_len, "C03.packet.be_packet.short.takes_rest_of_datagram");
                 }
+                kani::cover!(matches!(p.header, DataHeader::Short(_)), "C03.packet.be_packet.reach_short");
+                kani::cover!(matches!(p.header, DataHeader::Long(long::DataHeader::Initial(_))) && left > 0, "C03.packet.be_packet.reach_initial_coalesced");
+                kani::cover!(matches!(p.header, DataHeader::Long(long::DataHeader::Handshake(_))), "C03.packet.be_packet.reach_handshake");
+                kani::cover!(matches!(p.header, DataHeader::Long(long::DataHeader::ZeroRtt(_))), "C03.packet.be_packet.reach_zero_rtt");
+            }
+            Ok(Packet::VN(_)) | Ok(Packet::Retry(_)) => {
+                assert!(left == 0 && n > 0, "C03.packet.be_packet.vn_retry_consume_datagram");
+            }
+            Err(e) => {
+                // "a malformed datagram is simply dropped": an error value, never a panic
+                assert!(
+                    matches!(e, Error::IncompleteType(_) | Error::IncompleteHeader(..) | Error::UnderSampling(..) | Error::InvalidFixedBit | Error::UnsupportedVersion(_)),
+                    "C03.packet.be_packet.err_is_a_drop_reason"
+                );
+                kani::cover!(matches!(e, Error::UnderSampling(_, 19)), "C03.packet.be_packet.reach_under_sampling_19");
+                kani::cover!(matches!(e, Error::IncompleteHeader(..)), "C03.packet.be_packet.reach_incomplete_header");
+                kani::cover!(matches!(e, Error::IncompleteType(_)) && n == 0, "C03.packet.be_packet.reach_empty_datagram");
             }
         }
     }
 
-    /// REAL `PacketReader::next` -> REAL `be_packet` (its three `unreachable!` arms, `be_payload`, all
-    /// BytesMut handling), callee parsers replaced by their contracts.
+    /// REAL `be_packet` (its three `unreachable!` arms, `be_payload`, all BytesMut handling), the callee
+    /// parsers be_packet_type / be_header replaced by their contracts.
     #[kani::proof]
     #[kani::unwind(9)]
     #[kani::stub(core::fmt::write, noop_fmt_write)]
     #[kani::stub(be_packet_type, contract_be_packet_type)]
     #[kani::stub(be_header, contract_be_header_legal)]
     fn be_packet_glue_contract() {
-        //   "C03.packet.reader.none_iff_datagram_exhausted" "C03.packet.reader.every_step_consumes_input"
         //   "C03.packet.be_packet.data.offset_ge_1" "C03.packet.be_packet.data.offset_plus_20_inside_packet"
-        //   "C03.packet.be_packet.data.splits_datagram_without_loss" "C03.packet.be_packet.data.packet_bytes_are_datagram_prefix"
-        //   "C03.packet.be_packet.data.rest_is_datagram_suffix" "C03.packet.be_packet.short.takes_rest_of_datagram"
-        //   "C03.packet.be_packet.vn_retry_consume_datagram" "C03.packet.reader.error_drops_rest_of_datagram"
+        //   "C03.packet.be_packet.data.splits_datagram_without_loss" "C03.packet.be_packet.ok_consumes_input"
+        //   "C03.packet.be_packet.data.packet_bytes_are_datagram_prefix" "C03.packet.be_packet.data.rest_is_datagram_suffix"
+        //   "C03.packet.be_packet.short.takes_rest_of_datagram" "C03.packet.be_packet.vn_retry_consume_datagram"
         //   "C03.packet.be_packet.err_is_a_drop_reason"
-        glue_body::<48>();
+        glue_body::<40>();
+    }
+
+    /// the same glue contract on the larger datagram bound (thorough tier)
+    #[kani::proof]
+    #[kani::unwind(9)]
+    #[kani::stub(core::fmt::write, noop_fmt_write)]
+    #[kani::stub(be_packet_type, contract_be_packet_type)]
+    #[kani::stub(be_header, contract_be_header_legal)]
+    fn be_packet_glue_contract_full() {
+        //   "C03.packet.be_packet.data.offset_ge_1" "C03.packet.be_packet.data.offset_plus_20_inside_packet"
+        //   "C03.packet.be_packet.data.splits_datagram_without_loss" "C03.packet.be_packet.ok_consumes_input"
+        //   "C03.packet.be_packet.data.packet_bytes_are_datagram_prefix" "C03.packet.be_packet.data.rest_is_datagram_suffix"
+        //   "C03.packet.be_packet.short.takes_rest_of_datagram" "C03.packet.be_packet.vn_retry_consume_datagram"
+        //   "C03.packet.be_packet.err_is_a_drop_reason"
+        glue_body::<64>();
     }
 
     /// KNOWN FINDING (confined): a long header whose DCID or SCID length byte exceeds 20. RFC 9000 §17.2:
